@@ -40,7 +40,7 @@ Kw(k)       == CASE k = "null"  -> <<110, 117, 108, 108>>
 RECURSIVE Digits(_)
 Digits(n)   == IF n < 10 THEN <<48 + n>> ELSE Digits(n \div 10) \o <<48 + (n % 10)>>
 
-\* policies:  ws   "min" | "one" | "all" | "cmt"
+\* policies:  ws   "min" | "one" | "all" | "cmt" | "cmt2"
 \*            eol  "lf" | "cr" | "crlf"     (comment terminator)
 \*            str  "lit" | "oct" | "octmix" | "octmin" | "cont" | "contraw" | "hex" | "hexws"
 \*            name "plain" | "esc"
@@ -102,6 +102,8 @@ Sep(a, b, P) ==
       [] P.ws = "one" -> <<32>>
       [] P.ws = "all" -> <<0, 9, 10, 12, 13, 32>>
       [] P.ws = "cmt" -> <<37, 99, 33>> \o Eol(P)        \* a comment is white space (7.2.3)
+      \* ... and so are two comments in a row, the second one empty, with a blank before it
+      [] P.ws = "cmt2" -> <<37, 97>> \o Eol(P) \o <<32, 37>> \o Eol(P)
 
 Spell(toks, P) ==
     LET sp == [i \in 1..Len(toks) |-> SpellTok(toks[i], P)] IN
